@@ -46,14 +46,22 @@ impl Write for OffSink {
     fn flush(&mut self) -> io::Result<()> { Ok(()) }
 }
 
-pub struct OffSrc { pub data: Vec<u8>, pub pos: usize, pub chunk: usize, pub fail_at: Option<usize>, pub hits: usize, pub eof_probes: usize }
+/// `early_end`: from the fail offset on the source answers every call with a zero-length read
+/// (the connection / file ends early) instead of an error.
+pub struct OffSrc { pub data: Vec<u8>, pub pos: usize, pub chunk: usize, pub fail_at: Option<usize>, pub early_end: bool, pub hits: usize, pub eof_probes: usize }
 impl OffSrc {
-    pub fn new(data: &[u8], chunk: usize, fail_at: Option<usize>) -> Self { OffSrc { data: data.to_vec(), pos: 0, chunk, fail_at, hits: 0, eof_probes: 0 } }
+    pub fn new(data: &[u8], chunk: usize, fail_at: Option<usize>) -> Self { OffSrc { data: data.to_vec(), pos: 0, chunk, fail_at, early_end: false, hits: 0, eof_probes: 0 } }
+}
+impl tokio::io::AsyncRead for OffSrc {
+    fn poll_read(mut self: std::pin::Pin<&mut Self>, _cx: &mut std::task::Context<'_>, buf: &mut tokio::io::ReadBuf<'_>) -> std::task::Poll<io::Result<()>> {
+        let mut tmp = vec![0u8; buf.remaining()];
+        std::task::Poll::Ready(Read::read(&mut *self, &mut tmp).map(|k| buf.put_slice(&tmp[..k])))
+    }
 }
 impl Read for OffSrc {
     fn read(&mut self, buf: &mut [u8]) -> io::Result<usize> {
         if buf.is_empty() { return Ok(0); }
-        if let Some(f) = self.fail_at { if self.pos >= f { self.hits += 1; return Err(injected()); } }
+        if let Some(f) = self.fail_at { if self.pos >= f { self.hits += 1; return if self.early_end { Ok(0) } else { Err(injected()) }; } }
         let mut k = buf.len().min(self.data.len() - self.pos);
         if self.chunk > 0 { k = k.min(self.chunk); }
         if let Some(f) = self.fail_at { k = k.min(f - self.pos); }
@@ -249,37 +257,63 @@ fn write_cases(ctx: &Ctx, r: &mut Rng) -> Vec<Case> {
 
 // ------------------------------------------------------------------ readers
 type ROp = Box<dyn Fn(&mut OffSrc) -> Result<(), ()>>;
-struct REntry { name: String, bucket: &'static str, data: Vec<u8>, op: ROp }
+/// `ends_ok`: offsets at which the input read so far is itself a complete input (a DICOM data set carries no
+/// overall length: it may end after any top-level element), so an early end there cannot be detected; the data set
+/// reader also accepts an end inside the 4-byte tag of the next top-level element (documented leniency of
+/// parser/src/dataset/read.rs: UnexpectedEof while reading an element tag = graceful end), offsets b+1..b+3.
+struct REntry { name: String, bucket: &'static str, data: Vec<u8>, ends_ok: Vec<usize>, lenient: bool, op: ROp }
+
+/// byte offsets of the top-level element boundaries of the data set of `small_object(v)` in `uid`
+fn element_boundaries(v: u8, uid: &str) -> Vec<usize> {
+    let ts = TransferSyntaxRegistry.get(uid).unwrap();
+    let elems: Vec<_> = small_object(v).into_iter().collect();
+    (0..=elems.len()).filter_map(|j| {
+        let o = InMemDicomObject::from_element_iter(elems[..j].iter().cloned());
+        let mut b = vec![];
+        o.write_dataset_with_ts(&mut b, ts).ok().map(|_| b.len())
+    }).collect()
+}
 
 fn read_ops() -> Vec<REntry> {
     let mut out = vec![];
     for uid in ["1.2.840.10008.1.2", "1.2.840.10008.1.2.1", "1.2.840.10008.1.2.2", "1.2.840.10008.1.2.1.99"] {
+        let deflated = is_deflated(uid);
         for v in [1u8, 2, 3] {
             if v == 3 && uid != "1.2.840.10008.1.2.1" && uid != "1.2.840.10008.1.2.1.99" { continue; }
-            let mut file = vec![];
-            if file_object(v, uid).and_then(|f| f.write_all(&mut file).ok()).is_none() { continue; }
-            out.push(REntry { name: format!("file:from_reader:{}:obj{}", uid, v), bucket: "read-file", data: file,
-                op: Box::new(|s| dicom_object::from_reader(s).map(|_| ()).map_err(|_| ())) });
             let mut ds = vec![];
             let ts = TransferSyntaxRegistry.get(uid).unwrap();
             if small_object(v).write_dataset_with_ts(&mut ds, ts).is_err() { continue; }
+            let mut bounds = if deflated { vec![] } else { element_boundaries(v, uid) };
+            // inside an encapsulated pixel data sequence (the last element of variant 2) the data set reader accepts an
+            // end at/inside any item header (documented leniency: "UnexpectedEof inside a PixelData Sequence = graceful end")
+            if v == 2 && bounds.len() >= 2 { let start = bounds[bounds.len() - 2] + 8; let end = *bounds.last().unwrap(); bounds.extend(start..end); }
+            let mut file = vec![];
+            if file_object(v, uid).and_then(|f| f.write_all(&mut file).ok()).is_none() { continue; }
+            let head = file.len().saturating_sub(ds.len());
+            out.push(REntry { name: format!("file:from_reader:{}:obj{}", uid, v), bucket: "read-file", data: file,
+                ends_ok: bounds.iter().map(|b| head + b).collect(), lenient: deflated,
+                op: Box::new(|s| dicom_object::from_reader(s).map(|_| ()).map_err(|_| ())) });
             let u = uid.to_string();
             out.push(REntry { name: format!("dataset:read_dataset_with_ts:{}:obj{}", uid, v), bucket: "read-dataset", data: ds,
+                ends_ok: bounds.clone(), lenient: deflated,
                 op: Box::new(move |s| { let ts = TransferSyntaxRegistry.get(&u).unwrap(); InMemDicomObject::read_dataset_with_ts(s, ts).map(|_| ()).map_err(|_| ()) }) });
         }
     }
     for (name, pdu) in sample_pdus() {
         let mut b = vec![];
         dicom_ul::pdu::write_pdu(&mut b, &pdu).unwrap();
-        out.push(REntry { name: format!("pdu:read_pdu_from_wire:{}", name), bucket: "read-pdu", data: b,
+        out.push(REntry { name: format!("pdu:read_pdu_from_wire:{}", name), bucket: "read-pdu", data: b, ends_ok: vec![], lenient: false,
             op: Box::new(|s| { let mut rb = BytesMut::new(); dicom_ul::association::read_pdu_from_wire(s, &mut rb, 16378, true).map(|_| ()).map_err(|_| ()) }) });
     }
     for (wmax, len) in [(7u32, 5usize), (16, 37), (1018, 2100)] {
         let payload: Vec<u8> = (0..len).map(|i| (i * 7) as u8).collect();
         let mut b = vec![];
         { let mut w = dicom_ul::association::PDataWriter::verif_new(&mut b, 3, wmax); w.write_all(&payload).unwrap(); w.finish().unwrap(); }
-        out.push(REntry { name: format!("pdata:PDataReader::read_to_end:max{}:{}bytes", wmax, len), bucket: "read-pdata", data: b,
-            op: Box::new(move |s| { let mut rb = BytesMut::new(); let mut r = dicom_ul::association::PDataReader::new(s, 16378, &mut rb); let mut v = vec![]; r.read_to_end(&mut v).map_err(|_| ())?; if v.len() == len { Ok(()) } else { Err(()) } }) });
+        // the operation succeeds only if read_to_end succeeds: whether the data is complete is judged by the oracle
+        out.push(REntry { name: format!("pdata:PDataReader::read_to_end:max{}:{}bytes", wmax, len), bucket: "read-pdata", data: b.clone(), ends_ok: vec![], lenient: false,
+            op: Box::new(move |s| { let mut rb = BytesMut::new(); let mut r = dicom_ul::association::PDataReader::new(s, 16378, &mut rb); let mut v = vec![]; r.read_to_end(&mut v).map(|_| ()).map_err(|_| ()) }) });
+        out.push(REntry { name: format!("pdata:PDataReader::read_to_end(async):max{}:{}bytes", wmax, len), bucket: "read-pdata-async", data: b, ends_ok: vec![], lenient: false,
+            op: Box::new(move |s| { runtime().block_on(async { use tokio::io::AsyncReadExt; let mut rb = BytesMut::new(); let mut r = dicom_ul::association::PDataReader::new(s, 16378, &mut rb); let mut v = vec![]; AsyncReadExt::read_to_end(&mut r, &mut v).await.map(|_| ()).map_err(|_| ()) }) }) });
     }
     out
 }
@@ -288,32 +322,37 @@ fn read_cases(ctx: &Ctx, r: &mut Rng) -> Vec<Case> {
     let mut out = vec![];
     let exh = if ctx.tier == Tier::Thorough { 3000 } else { 700 };
     for e in read_ops() {
-        let run = |chunk: usize, fail_at: Option<usize>| { let mut s = OffSrc::new(&e.data, chunk, fail_at); let r = catch(|| (e.op)(&mut s)); (match r { None => R3::Panic, Some(Ok(())) => R3::Ok, Some(Err(())) => R3::Err }, s) };
-        let (r0, clean) = run(0, None);
+        let run = |chunk: usize, fail_at: Option<usize>, early: bool| { let mut s = OffSrc::new(&e.data, chunk, fail_at); s.early_end = early; let r = catch(|| (e.op)(&mut s)); (match r { None => R3::Panic, Some(Ok(())) => R3::Ok, Some(Err(())) => R3::Err }, s) };
+        let (r0, clean) = run(0, None, false);
         if r0 != R3::Ok { out.push(Case { coq: String::new(), desc: json!({"bucket": e.bucket, "op": e.name}), key: e.name.clone(), oracle: Oracle::Fails { class: "CleanReadFails".into(), detail: format!("{} fails on a fault-free source", e.name) } }); continue; }
         let n = e.data.len();
         let probes = clean.eof_probes > 0;
         let needed = clean.pos;
         let mut worst: Option<(String, String)> = None;
         let mut runs = 0u64;
-        let mut sample: Vec<(usize, usize, R3)> = vec![];
+        let mut sample: Vec<(usize, usize, bool, R3)> = vec![];
         let offs = offsets(n, r, exh);
         for &f in &offs {
+            for early in [false, true] {
             for chunk in [0usize, 1, 7] {
                 if chunk == 1 && n > 4000 && f % 5 != 0 && f + 3 < n { continue; }
-                let (res, s) = run(chunk, Some(f));
+                let (res, s) = run(chunk, Some(f), early);
                 runs += 1;
                 let fail = if res == R3::Panic { Some(("PanicOnFault", "panicked".to_string())) }
-                    else if res == R3::Ok && s.hits > 0 { Some(("FaultUnreported", format!("source reported {} fault(s) but the operation returned Ok", s.hits))) }
+                    else if !early && res == R3::Ok && s.hits > 0 { Some(("FaultUnreported", format!("source reported {} fault(s) but the operation returned Ok", s.hits))) }
+                    else if early && res == R3::Ok && f < needed && !e.lenient && !e.ends_ok.iter().any(|&b| b <= f && f < b + 4) { Some(("EarlyEndUnreported", format!("the source ended after {} of the {} bytes the operation needs, the operation returned Ok", f, needed))) }
                     else if res == R3::Err && s.hits == 0 { Some(("SpuriousError", "returned an error although the source never failed".to_string())) }
                     else { None };
-                if let Some((class, d)) = fail { if worst.is_none() { worst = Some((class.to_string(), format!("{}: fail offset {} of {} bytes, chunk {}: {}", e.name, f, n, chunk, d))); } }
-                // at f = n the source fails only if the operation asks for more after the last byte: not part of the model
-                if n <= 1500 && f < needed && sample.len() < 30 && (f <= 1 || f + 3 >= n || r.chance(1, (offs.len() as u64 * 3 / 16).max(1))) { sample.push((f, chunk, res)); }
+                if let Some((class, d)) = fail { if worst.is_none() { worst = Some((class.to_string(), format!("{}: {} offset {} of {} bytes, chunk {}: {}", e.name, if early { "early end at" } else { "fail" }, f, n, chunk, d))); } }
+                // at f = n the source fails only if the operation asks for more after the last byte: not part of the model;
+                // early ends are compared with the model for the length-delimited inputs (PDUs, P-DATA streams)
+                let modelled = !early || e.bucket == "read-pdu" || e.bucket == "read-pdata" || e.bucket == "read-pdata-async";
+                if modelled && n <= 1500 && f < needed && sample.len() < 40 && (f <= 1 || f + 3 >= n || r.chance(1, (offs.len() as u64 * 6 / 20).max(1))) { sample.push((f, chunk, early, res)); }
+            }
             }
         }
-        let coq = if sample.is_empty() { String::new() } else { format!("CRd {} false {}", needed, c_list(sample.iter().map(|(f, c, res)| format!("({}, {}, {})", f, c, c_r3(*res))))) };
-        out.push(Case { coq, desc: json!({"bucket": e.bucket, "op": e.name, "bytes": n, "pulled_clean": needed, "probes_eof": probes, "fail_offsets": offs.len(), "runs": runs, "chunks": ["all", 1, 7], "exhaustive": n <= exh}),
+        let coq = if sample.is_empty() { String::new() } else { format!("CRd {} false {}", needed, c_list(sample.iter().map(|(f, c, early, res)| format!("({}, {}, {}, {})", f, c, c_bool(*early), c_r3(*res))))) };
+        out.push(Case { coq, desc: json!({"bucket": e.bucket, "op": e.name, "bytes": n, "pulled_clean": needed, "probes_eof": probes, "fail_offsets": offs.len(), "runs": runs, "kinds": ["error", "early end (zero-length read)"], "chunks": ["all", 1, 7], "exhaustive": n <= exh}),
             key: e.name.clone(), oracle: match worst { None => Oracle::Holds, Some((class, detail)) => Oracle::Fails { class, detail } } });
     }
     out
